@@ -4,6 +4,10 @@ pub mod c03;
 pub mod c04;
 pub mod c07;
 pub mod c08;
+pub mod c09;
+pub mod c10;
+pub mod c13;
+pub mod c18;
 
 use crate::ctx::Ctx;
 
@@ -14,12 +18,19 @@ pub fn run(ctx: &mut Ctx) -> bool {
         "C04" => c04::run(ctx),
         "C07" => c07::run(ctx),
         "C08" => c08::run(ctx),
+        "C09" => c09::run(ctx),
+        "C10" => c10::run(ctx),
+        "C13" => c13::run(ctx),
+        "C18" => c18::run(ctx),
         _ => return false,
     }
     true
 }
 
 pub fn child_main(cmd: &str, args: &[String]) -> i32 {
+    if cmd == "child-open" {
+        return c09::child_open(args);
+    }
     if cmd == "child-sql" {
         return adhoc::main(args);
     }
